@@ -43,6 +43,32 @@ Theorem C17_text_run_lines : forall ls, Forall (fun l => ~ In c_nl l) ls ->
   content_lines (join_lines ls) = flat_map line_content ls.
 Proof. exact ConfProofs.content_lines_join. Qed.
 
+(* ---- in the grammar's terms ------------------------------------------------------------------- *)
+(* a text run written as key = value / comment / blank lines (each newline-terminated, the last one optionally
+   not) is read as exactly its key = value lines, in order, with exactly the written keys and values *)
+Theorem C17_grammar_lines_read : forall ls b, Forall gline_ok ls ->
+  content_lines (gtext ls b) = flat_map gline_text ls /\ map line_kv (flat_map gline_text ls) = flat_map gline_kv ls.
+Proof. intros ls b H. split; [apply ConfProofs.gtext_read; exact H | apply (ConfProofs.glines_read ls H)]. Qed.
+
+(* end to end: a document of the grammar (any nesting, layout, entity spelling) is accepted, and /path<key> is the
+   value of the last key = value line with that key written directly in the domains of that path (string, int,
+   int32, bool with the default on a malformed value); GetDomainLine lists the written lines in order *)
+Theorem C17_grammar_value : forall dec ps v k,
+  doc_ok ps -> short_lines (tokens_of ps) -> no_clobber (piece_events ps) -> grammar_text dec ps ->
+  Forall path_name v -> path_key k -> gassigns dec ps [root_name] (key_of_vec v) k <> [] ->
+  exists t, parse (render ps) = Ok t /\
+    let x := last (gassigns dec ps [root_name] (key_of_vec v) k) [] in
+    (forall d, get_string_def t (path_string v (Some k)) d = Ok x) /\
+    (forall d, get_int_def t (path_string v (Some k)) d = Ok (match atoi x with Some z => z | None => d end)) /\
+    (forall d, get_int32_def t (path_string v (Some k)) d = Ok (match atoi32 x with Some z => z | None => d end)) /\
+    (forall d, get_bool_def t (path_string v (Some k)) d = Ok (match parse_bool x with Some b => b | None => d end)).
+Proof. exact ConfProofs.grammar_value. Qed.
+Theorem C17_grammar_lines : forall dec ps v,
+  doc_ok ps -> short_lines (tokens_of ps) -> no_clobber (piece_events ps) -> grammar_text dec ps ->
+  Forall path_name v -> live (piece_events ps) (key_of_vec v) ->
+  exists t, parse (render ps) = Ok t /\ get_domain_line t (path_string v None) = Ok (glines dec ps [root_name] (key_of_vec v)).
+Proof. exact ConfProofs.grammar_lines. Qed.
+
 (* ---- the getters on a tree that represents the document ------------------------------------- *)
 (* paths /a/b and /a/b<key> denote the domain and the key *)
 Theorem C17_path_domain : forall v, Forall path_name v -> analysis_path (path_string v None) = Ok v.
@@ -124,6 +150,9 @@ Print Assumptions C17_kv_line.
 Print Assumptions C17_comment_line.
 Print Assumptions C17_blank_line.
 Print Assumptions C17_text_run_lines.
+Print Assumptions C17_grammar_lines_read.
+Print Assumptions C17_grammar_value.
+Print Assumptions C17_grammar_lines.
 Print Assumptions C17_path_domain.
 Print Assumptions C17_path_key.
 Print Assumptions C17_lines_exact.
